@@ -21,7 +21,11 @@ from leanio import enc_str, enc_list, dec_str, dec_list
 from main import Result
 
 FILES = ["a.txt", "b.html", "dir/file.txt", "dir/sub/deep.txt", "dir/.abstract", "dir/sub/.Links", ".hidden", "docs/readme", "docs/x y.txt",
-         "docs/readme.abstract", "caf\xe9/\xfc.txt", "gm/gophermap", "gm/inner.txt", "e/mpty/"]
+         "docs/readme.abstract", "caf\xe9/\xfc.txt", "gm/gophermap", "gm/inner.txt", "e/mpty/",
+         # member names that look like archives themselves (a directory, and a file that is no archive)
+         "backups.zip/notes.txt", "broken.zip", "docs/old.zip/",
+         # metadata that is not valid UTF-8 (Latin-1 names and abstracts)
+         "dir/.names", "a.txt.abstract", ".cap/a.txt"]
 
 
 def gen_members(rng):
@@ -34,6 +38,14 @@ def gen_members(rng):
             ms.append((f, "F", b"info line\n0Inner\tinner.txt\n1Up\t/\n"))
         elif f.endswith(".Links"):
             ms.append((f, "F", b"Name=Remote\nType=1\nPath=/r\nHost=example.org\nPort=70\n"))
+        elif f == "dir/.names":
+            ms.append((f, "F", b"Path=./file.txt\nName=Caf\xe9 renamed \xff\n"))
+        elif f == "a.txt.abstract":
+            ms.append((f, "F", b"R\xe9sum\xe9 of a.txt \xff\nsecond line\n"))
+        elif f == ".cap/a.txt":
+            ms.append((f, "F", b"Name=Capped \xe9\nNumb=1\n"))
+        elif f == "broken.zip":
+            ms.append((f, "F", b"this is not an archive\n"))
         elif f.endswith("html"):
             ms.append((f, "F", b"<html><head><title>Zip page</title></head></html>"))
         else:
@@ -45,7 +57,10 @@ def gen_members(rng):
                "l2/sub/deep.txt", "./dir/./sub", "dir/../docs", "../../etc/passwd", "/", "l3"]
     for i in range(nl):
         loc = rng.choice(["l1", "l2", "l3", "dir/l1", "docs/l2", "newdir/l1"])
-        ms.append((loc, "L", rng.choice(targets).encode()))
+        t = rng.choice(targets)
+        if "/../" in t and not any(m[0].startswith(t.split("/../")[0].lstrip("./") + "/") for m in ms):
+            t = "docs"      # 'x/../y' with no directory x: the kernel says ENOENT where lexical normalisation says y (outside the domain)
+        ms.append((loc, "L", t.encode()))
     # link chains: a link whose target goes *through* another link (resolution order matters)
     if rng.random() < 0.6:
         base = rng.choice(["dir", "docs", "dir/sub"])
